@@ -289,8 +289,22 @@ def compare_structure(subj, ext, model):
     """list of {what, expected(model), found(expansion), props}"""
     diffs = []
 
-    def d(what, exp, found, props):
+    feats = subj.features()
+
+    def d(what, exp, found, props, feat=None, field=None):
         diffs.append({"what": what, "model": exp, "expansion": found, "props": props})
+        # when the declaration itself asks for this name / visibility (or leaves it to the default) and the model predicts exactly that,
+        # the expansion differs from the request, whatever the model says
+        p = feats.get(feat) if feat else None
+        if p is not None and field:
+            if field == "vis":
+                asked = p["vis"] if "vis" in p else subj.vis
+            elif field == "name":
+                asked = p.get("name", feat)
+            else:
+                asked = p.get("struct_name") or (subj.ename + ("Iter" if feat == "iter" else "Names"))
+            if str(asked) == str(exp):
+                diffs[-1]["differs_from_request"] = {"feature": feat, field: asked}
     fl = model["flags"]
     disc_of = {ident: dd for dd, ident, _ in subj.discs()}
     t = ext["tables"]
@@ -319,12 +333,12 @@ def compare_structure(subj, ext, model):
         if flag in fl:
             c = consts.get(it["name"])
             if c is None:
-                d(f"{flag} const {it['name']} missing", it["name"], sorted(consts), ["C10", "C15"])
+                d(f"{flag} const {it['name']} missing", it["name"], sorted(consts), ["C10", "C15"], FLAG_FEATURE[flag], "name")
             else:
                 if disc_of.get(c["variant"]) != val:
                     d(f"{flag} variant", val, disc_of.get(c["variant"]), ["C05"])
                 if c["vis"] != vis_text(it["vis"], subj.vis):
-                    d(f"{flag} visibility", vis_text(it["vis"], subj.vis), c["vis"], ["C15"])
+                    d(f"{flag} visibility", vis_text(it["vis"], subj.vis), c["vis"], ["C15"], FLAG_FEATURE[flag], "vis")
         elif it and it["name"] in consts:
             d(f"{flag} const present although not enabled", None, it["name"], ["C15"])
     # functions
@@ -337,9 +351,9 @@ def compare_structure(subj, ext, model):
         if flag in fl:
             want = vis_text(it["vis"], subj.vis)
             if not fns:
-                d(f"fn {it['name']} ({feat}) missing", it["name"], sorted(ext["items"]), ["C10", "C15"])
+                d(f"fn {it['name']} ({feat}) missing", it["name"], sorted(ext["items"]), ["C10", "C15"], feat, "name")
             elif not any(x["vis"] == want for x in fns):
-                d(f"fn {it['name']} ({feat}) visibility", want, [x["vis"] for x in fns], ["C15"])
+                d(f"fn {it['name']} ({feat}) visibility", want, [x["vis"] for x in fns], ["C15"], feat, "vis")
     # iterator struct + mode
     if "iter" in fl:
         if ext["iter_mode"] != model["modes"][3]:
@@ -348,17 +362,17 @@ def compare_structure(subj, ext, model):
         sn = it["struct"] or (subj.ename + "Iter")
         st = [x for x in ext["items"].get(sn, []) if x["kind"] == "struct"]
         if not st:
-            d(f"iterator struct {sn} missing", sn, sorted(k for k, v in ext["items"].items() if any(x["kind"] == "struct" for x in v)), ["C15"])
+            d(f"iterator struct {sn} missing", sn, sorted(k for k, v in ext["items"].items() if any(x["kind"] == "struct" for x in v)), ["C15"], "iter", "struct")
         elif st[0]["vis"] != vis_text(it["vis"], subj.vis):
-            d(f"iterator struct {sn} visibility", vis_text(it["vis"], subj.vis), st[0]["vis"], ["C15"])
+            d(f"iterator struct {sn} visibility", vis_text(it["vis"], subj.vis), st[0]["vis"], ["C15"], "iter", "vis")
     if "names" in fl:
         it = model["items"]["names"]
         sn = it["struct"] or (subj.ename + "Names")
         st = [x for x in ext["items"].get(sn, []) if x["kind"] == "struct"]
         if not st:
-            d(f"names struct {sn} missing", sn, None, ["C15"])
+            d(f"names struct {sn} missing", sn, None, ["C15"], "names", "struct")
         elif st[0]["vis"] != vis_text(it["vis"], subj.vis):
-            d(f"names struct {sn} visibility", vis_text(it["vis"], subj.vis), st[0]["vis"], ["C15"])
+            d(f"names struct {sn} visibility", vis_text(it["vis"], subj.vis), st[0]["vis"], ["C15"], "names", "vis")
     if "asStr" in fl and ext["as_str_mode"] is not None and ext["as_str_mode"] != model["modes"][0]:
         d("as_str mode", model["modes"][0], ext["as_str_mode"], ["C09"])
     # public surface: everything visible must have been asked for under that name
